@@ -216,6 +216,11 @@ def gen_cases(tier, seed):
         for v in range(0, 5):
             one(["d_bsel", ["s", 0], ["pi", v], 2])
             one(["d_wsel", ["s", 0], ["pi", v], 1])
+    # Mux(sel, a, b) exhaustively: every selector shape (zero-width and signed included) x arm shape pairs
+    for ssel in SMALL_SHAPES:
+        for sa, sb in (([2, False], [3, True]), ([1, True], [0, False]), ([3, False], [3, False])):
+            st = [[x, y, c_] for c_ in all_values(*ssel) for x in G.boundary_values(*sa) for y in G.boundary_values(*sb)]
+            cases.append({"stream": "exi", "sigs": [sa, sb, ssel], "e": ["d_mux", ["s", 2], ["s", 0], ["s", 1]], "stims": st})
     # (2) shift amounts >= 16 and results far wider than 64 bits
     for sh in ([1, False], [4, False], [4, True], [16, False], [33, True], [40, False]):
         for aw in (4, 5, 6):
@@ -383,6 +388,29 @@ def coq_term(c):
     if c.get("k") == "arr":
         return "k_array [" + "; ".join(G.coq_expr(x, c["sigs"]) for x in c["elems"]) + f"] {G.coq_expr(c['idx'], c['sigs'])} {stims}"
     return f"k_expr {G.coq_expr(c['e'], c['sigs'])} {stims}"
+
+
+FINDING_BSEL = "C01-bit-select-signed-const-offset"
+
+
+def _signed_const_offset(t):
+    if isinstance(t, list):
+        if t and t[0] in ("d_bsel", "d_wsel") and t[2][0] in ("c", "pi", "ca", "en"):
+            off = t[2]
+            neg = off[1] < 0 if off[0] != "c" else bool(off[3])
+            if neg:
+                return True
+        return any(_signed_const_offset(x) for x in t)
+    return False
+
+
+def known_finding(c, obs, model):
+    """bit_select / word_select with a CONSTANT signed offset: the documentation promises TypeError, the code folds the offset
+    through Python's negative indexing (reported; C01_bit_select_signed_offset_refuted).  The model follows the code; a
+    mismatch is classified under the finding's id only when the implementation answers the documented TypeError instead."""
+    if c.get("k") is None and _signed_const_offset(c["e"]) and obs == [0, ERR_CLASS["TypeError"]] and model != obs:
+        return FINDING_BSEL
+    return None
 
 
 def explain(c):
